@@ -258,52 +258,35 @@ def r2_scoped(ctx):
              "a scoped locale must denote the same locale in every representation", floor=9)
     ast = ctx.ast
     f = "leptos_i18n/src/scopes.rs"
-    for name in ("as_str", "as_icu_locale", "direction", "get_all", "request_translations", "init_translations"):
-        fn = ast.fn(f, name, impl_self="ScopedLocale", impl_trait="Locale")
-        if fn is None:
+    from rules.common import msum
+    prog = ctx.mir("main")
+    fwd = {"as_str": "Locale::as_str(p1.locale)", "as_icu_locale": "Locale::as_icu_locale(p1.locale)", "direction": "Locale::direction(p1.locale)",
+           "get_all": "Locale::get_all()", "request_translations": "Locale::request_translations(p1.locale, p2)", "init_translations": "Locale::init_translations(p1.locale, p2)",
+           "to_base_locale": "p1.locale", "from_base_locale": "ScopedLocale#ScopedLocale(p1, PhantomData#PhantomData())"}
+    for name, w in fwd.items():
+        got = msum(prog, r"<leptos_i18n::scopes::ScopedLocale<L, S> as leptos_i18n::locale_traits::Locale<L>>::%s$" % name)
+        if not got:
+            if name == "init_translations":
+                continue  # only with dynamic_load on the client
             r.missing("ScopedLocale::" + name)
-            continue
-        e = single_expr(fn)
-        if e is not None and e["k"] == "ExprStmt":
-            e = e["expr"]
-        ok = False
-        if e is not None and e["k"] == "Call" and e["func"]["k"] == "Path":
-            p = e["func"]
-            callee_last = p["path"].split("::")[-1]
-            owner = norm(p.get("qself") or "::".join(p["path"].split("::")[:-1]))
-            args = [show(a) for a in e["args"]]
-            want_args = [] if name == "get_all" else ["self.locale"] + [a for a in fn.params()[1:]]
-            ok = callee_last == name and owner == "L" and args == want_args
-        if ok:
-            r.inst("ScopedLocale::" + name, "forwards to L::%s(%s)" % (name, "" if name == "get_all" else "self.locale, .."))
+        elif got[0][1] == w and not got[0][2]:
+            r.inst("ScopedLocale::" + name, "forwards: " + w)
         else:
-            r.viol("R2:ScopedLocale::" + name, "ScopedLocale::%s is `%s`, expected a plain forward to the same method of the wrapped locale" % (name, flat(show(fn.body))[:120]), file=fn.file, line=fn.line)
-    fn = ast.fn(f, "to_base_locale", impl_self="ScopedLocale", impl_trait="Locale")
-    if fn is None or flat(show(fn.body)) != "{self.locale}":
-        r.viol("R2:ScopedLocale::to_base_locale", "to_base_locale must return the wrapped locale", file=f)
-    else:
-        r.inst("ScopedLocale::to_base_locale", "self.locale")
-    fn = ast.fn(f, "from_base_locale", impl_self="ScopedLocale", impl_trait="Locale")
-    t = flat(show(fn.body)) if fn else ""
-    if t not in ("{ScopedLocale{locale:locale,scope_marker:PhantomData}}", "{ScopedLocale::new(locale)}", "{Self::new(locale)}"):
-        r.viol("R2:ScopedLocale::from_base_locale", "from_base_locale must wrap exactly the given locale: %s" % t, file=f)
-    else:
-        r.inst("ScopedLocale::from_base_locale", "wraps the given locale")
-    fn = ast.fn(f, "from_str", impl_self="ScopedLocale", impl_trait="FromStr")
-    t = flat(show(fn.body)) if fn else ""
-    if not re.match(r"^\{letlocale=<LasFromStr>::from_str\(s\)\?;Ok\(ScopedLocale\{locale:locale,scope_marker:PhantomData\}\)\}$", t):
-        r.viol("R2:ScopedLocale::from_str", "from_str must parse with the wrapped locale's FromStr and wrap the result: %s" % t, file=f)
-    else:
-        r.inst("ScopedLocale::from_str", "<L as FromStr>::from_str(s)? wrapped")
-    for tr, want in (("Display", "{<Lasfmt::Display>::fmt(&self.locale,f)}"), ("serde::Serialize", "{serde::Serialize::serialize(&self.to_base_locale(),serializer)}"),
-                     ("serde::Deserialize", "{letbase_locale:L=serde::Deserialize::deserialize(deserializer)?;Ok(Self::from_base_locale(base_locale))}")):
-        name = {"Display": "fmt", "serde::Serialize": "serialize", "serde::Deserialize": "deserialize"}[tr]
-        fn = ast.fn(f, name, impl_self="ScopedLocale", impl_trait=tr)
-        t = flat(show(fn.body)) if fn else ""
-        if not same(t, want):
-            r.viol("R2:ScopedLocale::%s" % tr, "%s for ScopedLocale is `%s`, expected `%s`" % (tr, t, want), file=f)
+            r.viol("R2:ScopedLocale::" + name, "ScopedLocale::%s computes `%s`, expected a plain forward to the wrapped locale `%s`" % (name, got[0][1], w), file=f)
+    more = [
+        (r"<leptos_i18n::scopes::ScopedLocale<L, S> as std::str::FromStr>::from_str$", "Result#Ok(ScopedLocale#ScopedLocale(FromStr::from_str(p1)?, PhantomData#PhantomData()))", "ScopedLocale::from_str", "<L as FromStr>::from_str(s)? wrapped"),
+        (r"<leptos_i18n::scopes::ScopedLocale<L, S> as std::fmt::Display>::fmt$", "Display::fmt(p1.locale, p2)", "ScopedLocale as Display", "delegates to the wrapped locale"),
+        (r"<leptos_i18n::scopes::ScopedLocale<L, Sc?> as .*_serde::Serialize>::serialize$", "Serialize::serialize(p1.locale, p2)", "ScopedLocale as serde::Serialize", "serialises the wrapped locale"),
+        (r"<leptos_i18n::scopes::ScopedLocale<L, Sc?> as .*_serde::Deserialize<'de>>::deserialize$", "Result#Ok(ScopedLocale#ScopedLocale(Deserialize::deserialize(p1)?, PhantomData#PhantomData()))", "ScopedLocale as serde::Deserialize", "deserialises the wrapped locale and wraps it"),
+    ]
+    for rx, w, label, what in more:
+        got = msum(prog, rx)
+        if not got:
+            r.missing(label)
+        elif got[0][1] == w and not got[0][2]:
+            r.inst(label, what)
         else:
-            r.inst("ScopedLocale as " + tr, "delegates to the wrapped locale")
+            r.viol("R2:" + label.replace(" as ", "::"), "%s computes `%s`, expected `%s`" % (label, got[0][1], w), file=f)
     return r
 
 
